@@ -1,6 +1,6 @@
 CONSTANTS K = 2
 TYS = {"Z","X"}
-PHS = {0,1,4,7}
+PHS = {0,1,2,4,7}
 ETS = {"N","H"}
 NB = 2
 VARS = {}
